@@ -499,6 +499,14 @@ func lowerRangeFor(env *Zlisp, label *SexpSymbol, header []Sexp, body []Sexp) (S
 	if !(len(targets) == 2 && op == "=") {
 		forBody = append(forBody, body...)
 	}
+	if op == ":=" && len(targets) == 2 {
+		// k, v := range declares fresh variables for every iteration, as in
+		// Go: in the one scope all iterations of the loop share, the second
+		// binding of k to a key of another type (a hash with symbol and
+		// integer keys) is refused by the type rule of def/mdef.
+		scoped := append([]Sexp{env.MakeSymbol("newScope")}, forBody...)
+		forBody = []Sexp{MakeList(scoped)}
+	}
 	forLoop := prattForList(env, label, control, forBody)
 	return prattCall(env, "letseq", letBindings, forLoop), true, nil
 }
